@@ -23,7 +23,7 @@ META = {
 
 
 META['explanation'] += ' Rounds 4-5: ' + 'R2 escape decided by constant propagation (decode(escape(t)) == t). R4 also: the condition under which an element error is written, evaluated over segment ids x message texts. R6 err_node.get_next_sibling steps to the immediate next sibling.'
-META['technique'] += '; conditional constant propagation over the CFG on finite, complete input domains (DESIGN.md 10.4.1)'
+META['technique'] = META.get('technique', 'static analysis: AST/CFG rules over /repo source + shipped XML data') + '; conditional constant propagation over the CFG on finite, complete input domains (DESIGN.md 10.4.1)'
 
 SAFE_NAMES = {
     'err_cde': 'error codes are literals of the code base',
